@@ -453,8 +453,8 @@ func actions(r *rng.R) []action {
 	cr := rng.Pick(r, []canvas.Capper{canvas.ButtCap, canvas.RoundCap, canvas.SquareCap})
 	jr := rng.Pick(r, []canvas.Joiner{canvas.MiterJoin, canvas.RoundJoin, canvas.BevelJoin, canvas.ArcsJoin})
 	off := g(r.Range(-80, 80))
-	dashes := [][]float64{{2, 1}, {1}, {0.5, 0.25, 2}, {3, 0, 1}, {g(r.Range(1, 64)), g(r.Range(1, 64))}}
-	ds := rng.Pick(r, dashes)
+	dashes := [][]float64{{2, 1}, {1}, {0.5, 0.25, 2}, {3, 0, 1}, {g(r.Range(1, 64)), g(r.Range(1, 64))}, {0, 1, 2}, {0, 1, 2, 3}, {2, 1, 0}, {1, 2, 3, 0}, {0, 2, 1, 0}}
+	ds := append(make([]float64, 0, 12), rng.Pick(r, dashes)...) // spare capacity: writes beyond len are looked at too
 	ts := []float64{g(r.Range(0, 160)), g(r.Range(0, 640))}
 	qx, qy := g(r.Range(-640, 640)), g(r.Range(-640, 640))
 	fr := canvas.FillRule(r.Intn(4))
@@ -493,7 +493,15 @@ func actions(r *rng.R) []action {
 		{name: "Flatten", f: func(p, q *canvas.Path) { keep(p.Flatten(tol)) }},
 		{name: "ReplaceArcs", f: func(p, q *canvas.Path) { keep(p.ReplaceArcs()) }},
 		{name: "XMonotone", f: func(p, q *canvas.Path) { keep(p.XMonotone()) }},
-		{name: "Dash", f: func(p, q *canvas.Path) { keep(p.Dash(off, ds...)) }},
+		{name: "Dash", f: func(p, q *canvas.Path) {
+			before := append([]float64{}, ds[:cap(ds)]...)
+			keep(p.Dash(off, ds...))
+			for k, v := range ds[:cap(ds)] {
+				if v != before[k] {
+					panic(fmt.Sprintf("Dash wrote into its dash array argument: cell %d of %v (len %d) became %v", k, before, len(ds), v))
+				}
+			}
+		}},
 		{name: "Stroke", f: func(p, q *canvas.Path) { keep(p.Stroke(w, cr, jr, tol)) }},
 		{name: "Offset", f: func(p, q *canvas.Path) { keep(p.Offset(w, tol), p.Offset(-w, tol)) }},
 		{name: "Markers", f: func(p, q *canvas.Path) { keep(p.Markers(q, q, q, true)...) }, binary: true},
@@ -724,6 +732,49 @@ func sliceCase(o *out.W, r *rng.R, i int) {
 	o.Emit(out.Case{I: i, Fam: "slices", Coq: term, Desc: map[string]interface{}{"ops": descOps, "path": "", "panic": ""}})
 }
 
+// arcBuilderCase: Path.Arc (the builder behind EllipticalArc, Arc shapes and Context.Arc) after a MoveTo, with an exactly
+// representable rotation (Pythagorean cosine and sine) and angles that are multiples of 90 degrees, including full turns
+func arcBuilderCase(o *out.W, r *rng.R, i int) {
+	tr := rng.Pick(r, [][3]float64{{1, 0, 1}, {0, 1, 1}, {3, 4, 5}, {4, 3, 5}, {-3, 4, 5}, {5, 12, 13}, {12, 5, 13}, {8, 15, 17}})
+	cs, sn := tr[0]/tr[2], tr[1]/tr[2]
+	rot := math.Atan2(sn, cs) * 180 / math.Pi
+	rx := g(r.Range(8, 640))
+	ry := g(r.Range(8, 640))
+	if r.P(1, 5) {
+		ry = rx
+	}
+	k0 := r.Range(-6, 6)
+	k1 := k0 + rng.Pick(r, []int{1, 2, 3, -1, -2, -3, 4, -4, 5, -6, 8, 9})
+	sx, sy := g(r.Range(-640, 640)), g(r.Range(-640, 640))
+	unit := func(k int) [2]float64 {
+		return [][2]float64{{1, 0}, {0, 1}, {-1, 0}, {0, -1}}[((k%4)+4)%4]
+	}
+	u0, u1 := unit(k0), unit(k1)
+	d := k1 - k0
+	if d < 0 {
+		d = -d
+	}
+	narcs := 0
+	if d >= 4 {
+		narcs = 2
+	}
+	if d%4 != 0 {
+		narcs++
+	}
+	p := &canvas.Path{}
+	pmsg := safe(func() {
+		p.MoveTo(sx, sy)
+		p.Arc(rx, ry, rot, 90*float64(k0), 90*float64(k1))
+	})
+	desc := map[string]interface{}{"calls": fmt.Sprintf("MoveTo(%v,%v) Arc(%v,%v,%v,%v,%v)", sx, sy, rx, ry, rot, 90*k0, 90*k1), "path": p.String(), "panic": pmsg}
+	term := "KNone"
+	if pmsg != "" || finite(p.Data()) {
+		term = fmt.Sprintf("KArcB %s %s %s %s %s %s %s %s %s %s %s", cq.Pair(cq.F(sx), cq.F(sy)), cq.F(rx), cq.F(ry), cq.F(cs), cq.F(sn),
+			cq.Pair(cq.F(u0[0]), cq.F(u0[1])), cq.Pair(cq.F(u1[0]), cq.F(u1[1])), cq.Z(int64(narcs)), cq.Bool(k0 < k1), cq.Floats(p.Data()), cq.Bool(pmsg != ""))
+	}
+	o.Emit(out.Case{I: i, Fam: "arc-builder", Coq: term, Desc: desc})
+}
+
 func main() {
 	seed := flag.Uint64("seed", 1, "")
 	n := flag.Int("n", 100, "")
@@ -776,6 +827,10 @@ func main() {
 		sel := r.Intn(100)
 		if i%25 == 24 {
 			sliceCase(o, r, i)
+			continue
+		}
+		if i%25 == 12 {
+			arcBuilderCase(o, r, i)
 			continue
 		}
 		switch {
